@@ -373,6 +373,13 @@ def stream_isolation(self):
                     def on_store(self, I3, st3, loc, val, node):
                         if loc is not None and not (isinstance(loc[0], tuple) and loc[0][0] in ('L', 'tmp')):
                             w.add(loc[0])
+
+                    def on_memcpy(self, I3, st3, node, dst, src, size):
+                        if dst is not None and dst[0] == 'p' and not (isinstance(dst[1], tuple) and dst[1][0] in ('L', 'tmp')):
+                            w.add(dst[1])
+
+                    def on_memset(self, I3, st3, node, dst, val, size):
+                        self.on_memcpy(I3, st3, node, dst, None, size)
                 I2 = TermInterp(prog, ts, listeners=[Lst()], models=dict(models.STD_MODELS))
                 log = []
                 I2.models.update(self.step_model(ts, log))
